@@ -22,12 +22,12 @@ var c10Model = &vlib.Check{
 		tree := mdl.BuildTree(doc, mdl.TreeOpts{R: r})
 		lay := mdl.RandomLayout(r)
 		base := mdl.Render(tree, lay)
-		mt, macros, depth := mdl.Macroize(r, tree, 1+r.Intn(4))
+		mt, macros, depth, ragged := mdl.MacroizeRagged(r, tree, 1+r.Intn(4), true)
 		if macros == 0 {
 			return nil
 		}
 		mr := mdl.Render(mt, lay)
-		return &vlib.Case{Project: renderedProject(base), Project2: renderedProject(mr), Params: map[string]any{"macros": macros, "depth": depth}}
+		return &vlib.Case{Project: renderedProject(base), Project2: renderedProject(mr), Params: map[string]any{"macros": macros, "depth": depth, "ragged": ragged}}
 	},
 	Classify: func(c *vlib.Case) (bool, []string) {
 		m := asInt(c.Params["macros"])
@@ -43,7 +43,10 @@ var c10Model = &vlib.Check{
 		if reused {
 			cls = append(cls, "macro-reused")
 		}
-		return m >= 2 || d >= 2 || reused, cls
+		if asInt(c.Params["ragged"]) > 0 {
+			cls = append(cls, "ragged-macro") // the body ends with an open directive, its other children follow the PASTE
+		}
+		return m >= 2 || d >= 2 || reused || asInt(c.Params["ragged"]) > 0, cls
 	},
 }
 
